@@ -108,6 +108,23 @@ def subkey_argv(inputs, types):
     return argv
 
 
+def finite(v):
+    """Non-finite floats have no JSON spelling (json.dumps writes the Python extension -Infinity / NaN, which the YAML
+    reader takes for text wherever the hint is not plainly float): they are replaced before the value is rendered as text."""
+    if isinstance(v, float) and (v != v or v in (float("inf"), float("-inf"))):
+        return 0.5 if v != v else (1e308 if v > 0 else -1e308)
+    if isinstance(v, dict):
+        return {k: finite(x) for k, x in v.items()}
+    if isinstance(v, list):
+        return [finite(x) for x in v]
+    if isinstance(v, tuple):
+        return tuple(finite(x) for x in v)
+    if isinstance(v, set):
+        return {finite(x) for x in v}
+    return v
+
+
+
 def run_channels(ctx, spec, p, inputs, workdir, n, skip_text=(), types=None):
     """-> dict channel -> Outcome"""
     nested = P.nest(inputs)
@@ -279,13 +296,13 @@ def case_channels(ctx, i, rng):
     types = P.arg_types(spec)
     settings = P.gen_settings(rng, spec, fill=0.8, hostile=0.3)
     # strings only at str-typed leaf positions keep hostile content; elsewhere values are plain by construction
-    inputs = P.settings_input(spec, settings)
+    inputs = finite(P.settings_input(spec, settings))
     bad = None
     if rng.random() < 0.3 and inputs:
         k = rng.choice(list(inputs))
         nm = G.nearmiss(rng, types[k], allow_none=False)
         if nm is not None and "for-str" not in nm[1]:  # a non-string value at a str position has no unambiguous text
-            inputs[k] = nm[0]
+            inputs[k] = finite(nm[0])
             bad = (k, nm[1])
     if not inputs:
         return
@@ -315,12 +332,12 @@ def case_modes(ctx, i, rng):
         return
     types = P.arg_types(base)
     settings = P.gen_settings(rng, base, fill=0.8, hostile=0.3)
-    inputs = P.settings_input(base, settings)
+    inputs = finite(P.settings_input(base, settings))
     if rng.random() < 0.25 and inputs:
         k = rng.choice(list(inputs))
         nm = G.nearmiss(rng, types[k], allow_none=False)
         if nm is not None:
-            inputs[k] = nm[0]
+            inputs[k] = finite(nm[0])
     if not inputs:
         return
     text = respell_numbers(json.dumps(P.nest(inputs), ensure_ascii=rng.random() < 0.5), rng)
